@@ -24,6 +24,9 @@ Fixpoint cset (k : str) (v : stored) (d : cdict) : cdict :=
 Definition wrap (v : pyval) : stored :=
   match v with VStr s => SList [s] | VList l => SList l | VTuple l => STuple l end.
 Definition setitem (d : cdict) (k : str) (v : pyval) : cdict := cset k (wrap v) d.
+(* MutableMapping.setdefault / update / the constructor all go through __setitem__ *)
+Definition setdefault (d : cdict) (k : str) (v : pyval) : cdict :=
+  match cget k d with Some _ => d | None => setitem d k v end.
 
 (* Attributes.__getitem__ under constants.always_return_list *)
 Definition view (always : bool) (v : stored) : pyval :=
